@@ -42,7 +42,9 @@ PROPERTY = {
                    "access denoting the address of an array or aggregate is compared by expression only: the address of a first "
                    "member is the address of the enclosing object, which is what is handed back). Bounded: exploration, not "
                    "proof.",
-    "rule": "one case = one declaration set: layout under both managers + up to 12 access paths",
+    "rule": "one case = one declaration set: layout under both managers + up to 12 access paths; plus, DEDUCTIVE (pyvc + z3, all "
+            "offsets and sizes, alignments 1..32): struct_compute_field_offset / struct_compute_align_size / union_compute_align_size "
+            "of both managers return the least aligned value not below their argument (packed: the argument itself)",
     "trusted_base": ["GCC (x86-64) is the layout oracle; CPython executes the real classes; the generator, the expected access "
                      "expressions and the comparisons are written independently in props/C35.py"],
     "assumptions": ["seeded family of props/C35.py (300 quick / 2500 thorough declaration sets)", "no bit-fields, no flexible array "
@@ -381,6 +383,75 @@ class CTypeCases(BoundedContract):
         return (why == "", why, n > 0)
 
 
+# ---------------------------------------------------------------------------------------------------------------------------------
+# Deductive layer (pyvc, unbounded): the three arithmetic helpers every layout goes through, for ALL offsets / sizes
+
+class _Obj(object):
+    """stands for an ObjC* member: the helpers only read .align"""
+    def __init__(self, align):
+        self.align = align
+
+
+class _NP(CTypesManagerNotPacked):
+    def __repr__(self):
+        return "<manager (not packed)>"
+
+
+class _P(CTypesManagerPacked):
+    def __repr__(self):
+        return "<manager (packed)>"
+
+
+_STABLE = {CTypesManagerNotPacked: _NP, CTypesManagerPacked: _P}        # a stable repr for the interpreter / CPython differential
+
+
+def _mk_align_target(cls, align):
+    def body(ctx):
+        from vc.terms import And
+        off = ctx.int("offset", 0, None, rnd_hi=5000)
+        m = _STABLE[cls].__new__(_STABLE[cls])
+        r = ctx.call(cls.struct_compute_field_offset, m, _Obj(align), off)
+        if r.raised:
+            ctx.check("no-raise", False, kind="no-raise")
+            return
+        ctx.cover("ret")
+        if cls is CTypesManagerNotPacked:
+            # the least multiple of the member's alignment that is not below the running offset
+            ctx.check("not-below", r.value >= off)
+            ctx.check("least", r.value - off < align)
+            ctx.check("aligned", r.value % align == 0)
+        else:
+            ctx.check("packed-identity", r.value == off)
+        size = ctx.int("size", 0, None, rnd_hi=5000)
+        r2 = ctx.call(cls.struct_compute_align_size, m, align, size)
+        r3 = ctx.call(cls.union_compute_align_size, m, align, size)
+        for nm, rr in (("struct", r2), ("union", r3)):
+            if rr.raised:
+                ctx.check("no-raise-%s" % nm, False, kind="no-raise")
+                continue
+            a, sz = rr.value
+            if cls is CTypesManagerNotPacked:
+                ctx.check("%s-align" % nm, a == align)
+                ctx.check("%s-size-padded" % nm, And(sz >= size, sz - size < align, sz % align == 0))
+            else:
+                ctx.check("%s-align-1" % nm, a == 1)
+                ctx.check("%s-size-exact" % nm, sz == size)
+    return body
+
+
+def proof_targets():
+    from harness.core import Target
+    ts = []
+    for cls in (CTypesManagerNotPacked, CTypesManagerPacked):
+        for align in (1, 2, 4, 8, 16, 32):
+            t = Target("C35/%s.layout-arithmetic/align=%d" % (cls.__name__, align),
+                       [cls.struct_compute_field_offset, cls.struct_compute_align_size, cls.union_compute_align_size],
+                       _mk_align_target(cls, align), params={"align": align})
+            t.expect_covers = ["ret"]
+            ts.append(t)
+    return ts
+
+
 def targets(tier):
-    return chunked(CTypeCases, "C35/ctype-layout", 16, tier)
+    return proof_targets() + chunked(CTypeCases, "C35/ctype-layout", 16, tier)
 
